@@ -47,6 +47,18 @@ fortran_ranks = [
 #    List of function nodes in generic interface.
 GenericFunction = collections.namedtuple("GenericTuple", ["force", "functions"])
 
+def break_derived_decl(lines):
+    """Allow the declaration of a derived type to be continued after '::'.
+    With a long type name and a long variable name it does not fit
+    into 132 columns.
+    """
+    for line in lines:
+        if (isinstance(line, str) and line.startswith(("type(", "class("))
+                and " :: " in line):
+            line = line.replace(" :: ", " ::\t ", 1)
+        yield line
+
+
 class Wrapf(util.WrapperMixin):
     """Generate Fortran bindings.
     """
@@ -929,7 +941,7 @@ rv = .false.
                 if imports:
                     iface.append("import :: " + ",\t ".join(sorted(imports.keys())))
                 iface.append("implicit none")
-                iface.extend(arg_c_decl)
+                iface.extend(break_derived_decl(arg_c_decl))
                 iface.append(-1)
                 iface.append("end {} {}".format(subprogram, key))
                 if self.newlibrary.options.literalinclude2:
@@ -1326,7 +1338,7 @@ rv = .false.
         if imports:
             c_interface.append("import :: " + ",\t ".join(sorted(imports.keys())))
         c_interface.append("implicit none")
-        c_interface.extend(arg_c_decl)
+        c_interface.extend(break_derived_decl(arg_c_decl))
         c_interface.append(-1)
         c_interface.append(wformat("end {F_C_subprogram} {F_C_name}", fmt_func))
         if self.newlibrary.options.literalinclude2:
@@ -2100,7 +2112,7 @@ rv = .false.
             )
             impl.append(1)
             impl.extend(arg_f_use)
-            impl.extend(arg_f_decl)
+            impl.extend(break_derived_decl(arg_f_decl))
             if F_code is None:
                 F_code = declare + pre_call + call + post_call
             self._create_splicer(sname, impl, F_code, F_force)
